@@ -71,14 +71,24 @@ def make_values(rng, kind, pattern):
     return vals
 
 
-def make_series(kind, vals):
+def make_index(n, style):
+    if style == 'dup':
+        return [i % 2 for i in range(n)]
+    if style == 'const':
+        return [5] * n
+    if style == 'str':
+        return ['r%d' % (n - i) for i in range(n)]
+    return None
+
+
+def make_series(kind, vals, index=None):
     if kind == 'int':
-        return pd.Series(vals, dtype='int64')
+        return pd.Series(vals, dtype='int64', index=index)
     if kind.startswith('float'):
-        return pd.Series(vals, dtype='float64')
+        return pd.Series(vals, dtype='float64', index=index)
     if kind == 'str':
-        return pd.Series(vals, dtype='str')
-    return pd.Series(vals, dtype=object)
+        return pd.Series(vals, dtype='str', index=index)
+    return pd.Series(vals, dtype=object, index=index)
 
 
 def reference(kind, vals):
@@ -124,15 +134,16 @@ def run_case(case, rec, ssj=None):
     inplace, return_col = case['inplace'], case['return_col']
     vals = make_values(rng, kind, pattern)
     exp = reference(kind, vals)
+    index = make_index(len(vals), rng.choice(['range', 'range', 'dup', 'const', 'str']))
     present = sum(1 for v in vals if not model.is_missing(v))
     numeric = kind in ('int', 'float_integral', 'float_fractional', 'float_mixed')
     degenerate = numeric and present == 0          # the documented exception (empty / all-NaN numeric)
-    tag = '%s(kind=%s, values=%r, inplace=%r%s): ' % (
-        'series_to_str' if entry == 'series' else 'dataframe_column_to_str', kind, vals, inplace,
+    tag = '%s(kind=%s, values=%r, index=%r, inplace=%r%s): ' % (
+        'series_to_str' if entry == 'series' else 'dataframe_column_to_str', kind, vals, index, inplace,
         '' if entry == 'series' else ', return_col=%r' % return_col)
     rec.count('conversion_cases')
     if entry == 'series':
-        s = make_series(kind, vals)
+        s = make_series(kind, vals, index)
         before = T.snapshot_series(s)
         try:
             res = ssj.series_to_str(s, inplace)
@@ -159,7 +170,8 @@ def run_case(case, rec, ssj=None):
         return present
     # dataframe entry point
     other = list(range(len(vals)))
-    df = pd.DataFrame({'k': other, 'c': make_series(kind, vals), 'z': ['z'] * len(vals)})
+    df = pd.DataFrame({'k': other, 'z': ['z'] * len(vals)}, index=index)
+    df.insert(1, 'c', make_series(kind, vals).array)      # positional: no index alignment involved
     before = T.snapshot_df(df)
     try:
         res = ssj.dataframe_column_to_str(df, 'c', inplace=inplace, return_col=return_col)
